@@ -11,6 +11,9 @@ Definition name := N.
 Definition site := N.
 Definition alt := option site.
 
+(* kinds of abrupt exit: return, break, continue, raise of exception class i *)
+Inductive exitk := KRet | KBrk | KCont | KExc (i : nat).
+
 Inductive cmd :=
 | Skip
 | Seq (a b : cmd)
@@ -22,11 +25,13 @@ Inductive cmd :=
 | Try (rf : bool) (b : cmd) (rl : bool) (hs : hlist) (e f : cmd)
       (* try body b; when rf (rl) is set an exception of any class i may be raised before its first
          (after its last) statement; it is caught by the i-th handler of hs; else e; finally f *)
-| Return
+| Exit (k : exitk)
 with hlist :=
 | HNil
 | HCons (ty : cmd) (nm : option (site * name)) (hb : cmd) (rest : hlist).
       (* except <ty reads> [as nm]: hb *)
+
+Notation Return := (Exit KRet).
 
 Scheme cmd_mut := Induction for cmd Sort Prop
   with hlist_mut := Induction for hlist Sort Prop.
@@ -64,7 +69,7 @@ Definition bind_opt_r (nm : option (site * name)) (p : renv) : renv :=
 Fixpoint has_ret (c : cmd) : bool :=
   match c with
   | Skip | Bind _ _ | Read _ _ => false
-  | Return => true
+  | Exit _ => true
   | Seq a b | Branch a b => has_ret a || has_ret b
   | While t b e | For t b e => has_ret t || has_ret b || has_ret e
   | Try _ b _ hs e f => has_ret b || has_ret_h hs || has_ret e || has_ret f
@@ -83,7 +88,8 @@ Definition is_skip (c : cmd) : bool := match c with Skip => true | _ => false en
    no return at all (finally would run from an environment the flow graph has no node for). *)
 Fixpoint ok (c : cmd) : bool :=
   match c with
-  | Skip | Bind _ _ | Read _ _ | Return => true
+  | Skip | Bind _ _ | Read _ _ => true
+  | Exit k => match k with KRet => true | _ => false end   (* C02: no break/continue/free raise *)
   | Seq a b | Branch a b => ok a && ok b
   | While t b e | For t b e => ok t && ok b && ok e && negb (has_ret t)
   | Try rf b rl hs e f =>
@@ -99,7 +105,7 @@ with ok_h (hs : hlist) : bool :=
 (* names bound somewhere in a command *)
 Fixpoint binds (c : cmd) : list name :=
   match c with
-  | Skip | Read _ _ | Return => []
+  | Skip | Read _ _ | Exit _ => []
   | Bind _ x => [x]
   | Seq a b | Branch a b => binds a ++ binds b
   | While t b e | For t b e => binds t ++ binds b ++ binds e
